@@ -92,3 +92,8 @@ def canaries(tier):
         {'name': 'prod_diagonal-wrong', 'job': 'midpoint-diagonal',
          'patches': [('torchsde._core.base_sde', '    def prod_diagonal(self, g, v):\n        return g * v', '    def prod_diagonal(self, g, v):\n        return g * v * 0.5 + g * v.flip(0) * 0.5 if False else g * v.sum(dim=1, keepdim=True)')]},
     ]
+
+
+def native_replay(ob):
+    from props.base import run_native
+    return run_native('c17')
